@@ -284,6 +284,23 @@ def run_encode(chk, i, case, sched_seed):
     return out
 
 
+def pipeline_sig(case):
+    """Features that change which kernels hold references to which pool (keys stay stable across random tool draws)."""
+    f = []
+    g = lambda k, d=0: int(case.get(k, d))
+    if g("cfg.rate_control_mode"):
+        f.append("rc%d" % g("cfg.rate_control_mode"))
+    if g("passes", 1) == 2:
+        f.append("2pass")
+    if g("cfg.enable_overlays"):
+        f.append("overlays")
+    if g("cfg.enable_tpl_la"):
+        f.append("tpl")
+    if g("cfg.superres_mode"):
+        f.append("superres")
+    return "+".join(f) if f else "base"
+
+
 def account_encode(chk, out):
     case = {"kind": "encode", "case": out["case"]}
     chk.count()
@@ -301,8 +318,7 @@ def account_encode(chk, out):
     chk.bump("encode_blocked_producers_at_exit", tr["blocked_producers"])
     for k, n in tr["event_counts"].items():
         chk.bump("encode_ev_" + k, n)
-    from . import common
-    sig = common.feature_sig(out["case"])
+    sig = pipeline_sig(out["case"])
     for key, msg in hist["viol"]:
         chk.violation("C23|encode-trace|%s|%s" % (key, sig), "real encode (lp=%s %sx%s passes=%s, %s): %s"
                       % (out["case"].get("cfg.logical_processors"), out["case"].get("width"), out["case"].get("height"),
